@@ -1148,6 +1148,7 @@ pub fn project(name: &str, trace: &[Value]) -> Vec<Value> {
         "sched" => crate::proj_sched::sched(trace),
         "dispatch" => crate::proj_dispatch::dispatch(trace),
         "retx" => crate::proj_retx::retx(trace),
+        "loss" => crate::proj_loss::loss(trace),
         "migration" => crate::proj_c15::migration(trace),
         "dgram" => crate::proj_c16::dgram(trace),
         "zerortt" => crate::proj_c17::zerortt(trace),
